@@ -36,6 +36,10 @@ Fixpoint ends_nl (t : text) : bool :=
 Definition cmdlines (command : text) : list text :=
   splitlines command ++ (if ends_nl command then [[]] else []).
 
+(** replwrap.py:40-42: a child that echoes is told not to, and the wrapper waits until the terminal agrees, before anything
+    is read: the calls made on the child (0 = setecho(False), 1 = waitnoecho()) *)
+Definition ctor_echo_calls (echo : bool) : list nat := if echo then [0; 1] else [].
+
 (** -- the wrapper ---------------------------------------------------------------------------------------- *)
 Section Repl.
   Variable rstate : Type.
